@@ -21,6 +21,8 @@ import (
 	"sort"
 	"strings"
 
+	"github.com/cossacklabs/acra/acrablock"
+	"github.com/cossacklabs/acra/acrastruct"
 	"github.com/jackc/pgx/v5/pgproto3"
 
 	"verif/detrand"
@@ -75,8 +77,33 @@ func insertStmt(c pgcheck.ColCfg, how string, k int, v []byte) pgcheck.Stmt {
 		return pgcheck.Mk(how, "", true, true, sess.Ext("", "insert into t (id, plain, c) values ($1, $2, $3)", [][]byte{pgcheck.I4(k), []byte(fmt.Sprintf("p%d", k)), pgcheck.TextParams(c.Shadow, v)[0]}, nil, nil, nil), v)
 	case "ins-binary-param":
 		return pgcheck.Mk(how, "", true, true, sess.Ext("", "insert into t (id, plain, c) values ($1, $2, $3)", [][]byte{pgcheck.I4(k), []byte(fmt.Sprintf("p%d", k)), pgcheck.BinParam(c.Shadow, v)}, []int16{0, 0, 1}, nil, nil), v)
+	case "ins-envelope-literal", "ins-envelope-binary-param":
+		// the application (or AcraTranslator) encrypted the value itself: a whole envelope the
+		// owner can open is written; the blind index is still that of the plaintext
+		e := envelope(c, v)
+		plain := sess.Q(fmt.Sprintf("insert into t (id, plain, c) values (%d, 'p%d', %s)", k, k, pgcheck.Literals(c.Shadow, v)[0]))
+		var st pgcheck.Stmt
+		if how == "ins-envelope-literal" {
+			st = pgcheck.Mk(how, "", true, true, sess.Q(fmt.Sprintf("insert into t (id, plain, c) values (%d, 'p%d', %s)", k, k, sess.HexLit(e))), v)
+		} else {
+			st = pgcheck.Mk(how, "", true, true, sess.Ext("", "insert into t (id, plain, c) values ($1, $2, $3)", [][]byte{pgcheck.I4(k), []byte(fmt.Sprintf("p%d", k)), e}, []int16{0, 0, 1}, nil, nil), v)
+			plain = sess.Ext("", "insert into t (id, plain, c) values ($1, $2, $3)", [][]byte{pgcheck.I4(k), []byte(fmt.Sprintf("p%d", k)), pgcheck.BinParam(c.Shadow, v)}, []int16{0, 0, 1}, nil, nil)
+		}
+		st.ShadowMsgs = plain
+		return st
 	}
 	panic(how)
+}
+
+// envelope encrypts v for the owner of the column the way an application would: AcraStruct for
+// the AcraStruct configurations, AcraBlock otherwise.
+var envelope func(c pgcheck.ColCfg, v []byte) []byte
+
+func insertKindsOf(c pgcheck.ColCfg) []string {
+	if c.Shadow == sess.OIDBytea {
+		return append(append([]string{}, insertKinds...), "ins-envelope-literal", "ins-envelope-binary-param")
+	}
+	return insertKinds
 }
 
 var insertKinds = []string{"ins-literal", "ins-text-param", "ins-binary-param"}
@@ -95,6 +122,11 @@ func searchStmts(c pgcheck.ColCfg, v []byte, thorough bool) []pgcheck.Stmt {
 		mk("eq-literal-select-c", sess.Q("select id, c from t where c = "+lit)),
 		mk("eq-literal-and-plain", sess.Q("select id from t where c = "+lit+" and plain = 'p1'")),
 		mk("eq-literal-or-id", sess.Q("select id from t where c = "+lit+" or id = 2")),
+		// other conditions of the rewritten statement keep their meaning: constant on the left of a
+		// non-symmetric operator
+		mk("eq-literal-and-const-lt-id", sess.Q("select id from t where c = "+lit+" and 1 < id")),
+		mk("eq-literal-or-const-ge-id", sess.Q("select id from t where c = "+lit+" or 1 >= id")),
+		mk("eq-text-param-and-param-lt-id", sess.Ext("", "select id from t where c = $1 and $2 < id", [][]byte{tp, []byte("1")}, nil, nil, nil)),
 		mk("eq-literal-join", sess.Q("select t.id, u.note from t join u on t.id = u.id where t.c = "+lit)),
 		mk("eq-text-param", sess.Ext("", "select id from t where c = $1", [][]byte{tp}, nil, nil, nil)),
 		mk("eq-binary-param", sess.Ext("", "select id from t where c = $1", [][]byte{bp}, []int16{1}, nil, nil)),
@@ -198,6 +230,27 @@ func main() {
 		maxRows = 3
 	}
 	cfgs := configs(thorough)
+	envelope = func(c pgcheck.ColCfg, v []byte) []byte {
+		var e []byte
+		var err error
+		if strings.Contains(c.YAML, "acrastruct") {
+			pub, kerr := ks.GetClientIDEncryptionPublicKey(c.Owner)
+			if kerr != nil {
+				ev.Fatalf("owner public key: %v", kerr)
+			}
+			e, err = acrastruct.CreateAcrastruct(v, pub, nil)
+		} else {
+			key, kerr := ks.GetClientIDSymmetricKey(c.Owner)
+			if kerr != nil {
+				ev.Fatalf("owner symmetric key: %v", kerr)
+			}
+			e, err = acrablock.CreateAcraBlock(v, key, nil)
+		}
+		if err != nil {
+			ev.Fatalf("envelope: %v", err)
+		}
+		return e
+	}
 
 	runOne := func(c pgcheck.ColCfg, env *sess.PGEnv, rp replayT) {
 		rn := &pgcheck.Runner{Property: "C09", R: r, Env: env, Cfg: c, After: hashOracle(c, rp.Ops)}
@@ -252,8 +305,9 @@ func main() {
 				return
 			}
 			for v := start; v < len(pool(c)); v++ {
-				for _, how := range insertKinds {
-					if len(cur) > 0 && !thorough && how != insertKinds[(len(cur)+v)%len(insertKinds)] {
+				kinds := insertKindsOf(c)
+				for _, how := range kinds {
+					if len(cur) > 0 && !thorough && how != kinds[(len(cur)+v)%len(kinds)] {
 						continue
 					}
 					rec(append(cur, op{how, v}), v)
